@@ -24,14 +24,21 @@ def decode(v, w):
     p, emin, emax = FMT[w]
     if e == (1 << xb) - 1:
         return ("nan",) if m else ("inf", s)
-    if e == 0 and m == 0:
-        return ("zero", s)
     if e == 0:
-        q = Fraction(m, 1 << (mb - emin))      # m * 2^(emin - mb)
+        if m == 0:
+            return ("zero", s)
+        ex = emin - mb
     else:
+        m |= 1 << mb
         ex = e - emax - mb
-        q = Fraction((1 << mb) | m) * (Fraction(2) ** ex)
-    return ("num", -q if s else q)
+    if s:
+        m = -m
+    if ex >= 0:
+        return ("num", Fraction(m << ex))
+    # strip common powers of two by hand: the constructor's gcd is the expensive part
+    tz = (m & -m).bit_length() - 1
+    k = min(tz, -ex)
+    return ("num", Fraction(m >> k, 1 << (-ex - k), _normalize=False))
 
 
 def qnan(w):
@@ -72,37 +79,58 @@ def _round_int(n, mode, neg):
 
 
 def encode(q, w, mode="RN", zero_sign=0):
-    """round the exact rational q to the format"""
+    """round the exact rational q to the format (integer arithmetic on numerator / denominator)"""
     p, emin, emax = FMT[w]
     mb = p - 1
-    if q == 0:
+    N, D = q.numerator, q.denominator
+    if N == 0:
         return zero(zero_sign, w)
-    neg = q < 0
-    a = -q if neg else q
-    # exponent of a
-    e = a.numerator.bit_length() - a.denominator.bit_length()
-    if Fraction(2) ** e > a:
-        e -= 1
-    elif Fraction(2) ** (e + 1) <= a:
-        e += 1
-    ee = max(e, emin)
-    quantum = Fraction(2) ** (ee - mb)
-    n = _round_int(a / quantum, mode, neg)
+    neg = N < 0
+    if neg:
+        N = -N
+    # exponent e with 2^e <= N/D < 2^(e+1)
+    e = N.bit_length() - D.bit_length()
+    if e >= 0:
+        if (D << e) > N:
+            e -= 1
+    else:
+        if D > (N << -e):
+            e -= 1
+    ee = e if e > emin else emin
+    sh = ee - mb                     # quantum 2^sh ; n = round(N / (D * 2^sh))
+    if sh >= 0:
+        num, den = N, D << sh
+    else:
+        num, den = N << -sh, D
+    n = num // den
+    rem = num - n * den
+    if rem:
+        if mode == "RZ":
+            pass
+        elif mode == "RU":
+            if not neg:
+                n += 1
+        elif mode == "RD":
+            if neg:
+                n += 1
+        else:
+            r2 = rem << 1
+            if r2 > den or (r2 == den and (n & 1)):
+                n += 1
     if n >= (1 << p):
         n >>= 1
         ee += 1
+    sg = (1 if neg else 0) << (w - 1)
     if n == 0:
-        return zero(1 if neg else 0, w)
+        return sg
     if n < (1 << mb):
-        # subnormal
-        return ((1 if neg else 0) << (w - 1)) | n
+        return sg | n               # subnormal
     if ee > emax:
-        # overflow
         to_inf = mode == "RN" or (mode == "RU" and not neg) or (mode == "RD" and neg)
         if to_inf:
             return inf(1 if neg else 0, w)
-        return ((1 if neg else 0) << (w - 1)) | (((1 << (w - p)) - 2) << mb) | ((1 << mb) - 1)
-    return ((1 if neg else 0) << (w - 1)) | ((ee + emax) << mb) | (n - (1 << mb))
+        return sg | (((1 << (w - p)) - 2) << mb) | ((1 << mb) - 1)
+    return sg | ((ee + emax) << mb) | (n - (1 << mb))
 
 
 def _zsum(sa, sb, mode):
